@@ -12,7 +12,7 @@ Oracles (each evaluation counted):
      be exactly the two deliberate errors of every user file in the graph: an assigned name that does not
      resolve, or binds to another file, shows up as an extra diagnostic; an unchecked source as a missing one.
   O  `mypy DIR` versus the files DIR expanded to (from the run's own source list), reversed and shuffled:
-     same outcome class, same (file, module) pairs, same graph, same diagnostics.
+     same outcome class, same (file, module) pairs, same files in the graph, same diagnostics.
   D  `mypy DIR` versus every python file below DIR listed individually, wherever that listing is itself accepted
      (no duplicate-module stop): same outcome, same graph, same diagnostics.
   P  `mypy -p PKG` versus `mypy DIR-of-PKG` wherever the documented crawl rule makes the package root a
@@ -559,8 +559,14 @@ def run(ctx: common.Ctx) -> None:
         "stops with a documented error (duplicate module, found twice, invalid package name) are legitimate outcomes; "
         "their message text (which of the two files is named first) is not compared, the outcome class is",
         "-p PKG is compared with `mypy DIR` only where running_mypy.rst makes the directory above PKG the crawl base "
-        "(comparable_p: identifiers only, no same-named module beside the package or in another search base, "
-        "__init__ everywhere without namespace packages, top-level __init__ with them, search base itself with explicit bases)",
+        "(comparable_p: identifier directory names only, the top-level name not also provided by another search base or by a "
+        "<name>-stubs directory, __init__ everywhere without namespace packages, top-level __init__ and no package above with "
+        "them, no explicit base inside the package with explicit bases); -m MOD likewise",
+        "graphs are compared on files: namespace-package directory states carry no diagnostics, and which directory an "
+        "ambiguous namespace name binds to follows the search-path order (= order of the sources) by design",
+        "`mypy DIR` is compared with the listing of every python file below DIR only when that listing is itself accepted "
+        "(a stub beside its source or a module beside its package make it a duplicate-module stop: there the crawl's "
+        "preference is the documented behaviour) and no looked-up name was found outside DIR under another search base",
         "in-process mypy.main.main; a sample is re-run as a fresh `python -m mypy` process and must agree",
         "trusted base: CPython, the OS file system (case-sensitive)",
     ]
